@@ -25,7 +25,8 @@
 (* op is TellHub.Deliver / AskHub.Deliver: strong rules), "queue"          *)
 (* (swarmutil.Queue; deliver = Queue.Deliver returning a boolean at once), *)
 (* "stack" (a whole swarm; deliveries are a peer's Tell/Ask whose return   *)
-(* says nothing about the callback: weak rules).                           *)
+(* says nothing about the callback: weak rules), "dgram" (a stack over a   *)
+(* lossless datagram transport: as "stack", plus Settle and ExactlyOnce).  *)
 (***************************************************************************)
 EXTENDS Naturals, Sequences, FiniteSets, TLC
 
@@ -108,10 +109,10 @@ HNext(h, ev) ==
 HViol(h, ev) ==
   CASE ev.ev = "CbBegin" ->
          IF ~KnownM(h, ev.msg)
-         THEN (IF h.lvl # "stack" THEN {"OnlyDelivered"} ELSE {})
+         THEN (IF h.lvl \notin {"stack", "dgram"} THEN {"OnlyDelivered"} ELSE {})
          ELSE LET M == h.msgs[ev.msg] IN
               \* exactly one receiver callback per message, never two
-              (IF M.strong /\ M.ncb >= 1 THEN {"ExactlyOnce"} ELSE {})
+              (IF (M.strong \/ h.lvl = "dgram") /\ M.ncb >= 1 THEN {"ExactlyOnce"} ELSE {})
               \* the delivery already returned an error: then no callback may ever see the message
               \cup (IF M.strong /\ M.errRet THEN {"ErrOnlyIfUnseen"} ELSE {})
               \* no callback for a delivery CALLED after Close RETURNED
@@ -170,6 +171,13 @@ HViol(h, ev) ==
     [] ev.ev = "Leak" -> {"AllReleased"}
     [] ev.ev = "Panic" -> IF Known(h, ev.op) /\ h.ops[ev.op].kind = "close2" THEN {"CloseIdempotent"} ELSE {"NoPanic"}
     \* queue at rest, never closed: every accepted message was seen by a callback or purged
+    \* level "dgram" (a swarm over a lossless datagram transport, receive / cancel / Tell race): once the
+    \* traffic has settled with a healthy receiver present, every datagram whose Tell returned success was
+    \* handed to a callback - by the healthy receiver or by the cancelled one
+    [] ev.ev = "Settle" ->
+         IF h.lvl = "dgram" /\ ~h.closeCalled
+            /\ \E m \in DOMAIN h.msgs : h.msgs[m].acc /\ h.msgs[m].ncb = 0
+         THEN {"NotLostByCancel"} ELSE {}
     [] ev.ev = "Quiesce" ->
          IF h.lvl = "queue" /\ ~h.closeCalled
             /\ Cardinality({m \in DOMAIN h.msgs : h.msgs[m].acc /\ h.msgs[m].ncb = 0}) # h.purged
